@@ -1,3 +1,190 @@
--- stub: replaced by the property author
+import SupervisorModel.Lemmas.SupLemmas
+/-
+  C13 — start/stop/signal RPC answers agree with what happened to the process.
+  Per-process RPC layer (Model/ProcOps.lean: `_update` gate, state guards, spawn/stop/signal,
+  answer) and the deferred answers of the daemon model (Model/Sup.lean: `onwait` callbacks polled by
+  the loop).  Group/all forms (`make_allfunc`) are covered by the monitor only.
+-/
+set_option linter.unusedSimpArgs false
+set_option linter.unusedVariables false
 namespace Sv.Props.C13
+open Sv Sv.Proc Sv.Gen.Proc Sv.Sup Sv.Gen.Sup
+
+def answers (outs : List Out) : List Int := outs.filterMap fun o => match o with | .answer c => some c | _ => none
+def kills (outs : List Out) : List Out := outs.filter fun o => match o with | .kill .. => true | _ => false
+
+/-- the fault `startProcess` answers when it refuses before spawning -/
+def startFault (p : Proc) (mood : Int) (res : SpawnRes) : Int :=
+  if mood < moodRUNNING then faultSHUTDOWN_STATE else if res = .badCmd then faultNO_FILE
+  else if p.state ∈ runningStates then faultALREADY_STARTED else if p.state = .unknown then faultFAILED
+  else faultABNORMAL_TERMINATION
+
+/-- **startProcess forks only for a process that is not starting, running or backing off** (nor
+    UNKNOWN, nor being stopped), and only when the daemon is running and the command file exists:
+    otherwise the call answers exactly the documented fault and does nothing else. -/
+theorem start_forks_only_if_eligible (cfg : Cfg) (p : Proc) (now mood : Int) (res : SpawnRes)
+    (h : mood < moodRUNNING ∨ res = .badCmd ∨ p.state ∈ runningStates ∨ p.state = .unknown ∨ p.state = .stopping) :
+    rpcStart cfg now mood res { p := p } = { p := p, outs := [.answer (startFault p mood res)] } := by
+  by_cases hm : mood < moodRUNNING
+  · simp [rpcStart, guard, answer, emit, hm, startFault]
+  · by_cases hb : res = .badCmd
+    · simp [rpcStart, startRefusal, guard, answer, emit, hm, hb, startFault]
+    · by_cases hr : p.state ∈ runningStates
+      · simp [rpcStart, startRefusal, guard, answer, emit, hm, hb, hr, startFault]
+      · by_cases hu : p.state = .unknown
+        · simp [rpcStart, startRefusal, guard, answer, emit, hm, hb, hr, hu, startFault, runningStates]
+        · have hs : p.state = .stopping := by
+            rcases h with h | h | h | h | h <;> simp_all
+          simp [rpcStart, startRefusal, guard, answer, emit, hm, hb, hr, hu, hs, startFault, runningStates]
+
+theorem startFault_not_success (p : Proc) (mood : Int) (res : SpawnRes) : startFault p mood res ≠ faultSUCCESS := by
+  simp only [startFault]
+  (repeat' split) <;> decide
+
+/-- what `spawn()` does for an eligible process, by environment answer -/
+theorem spawn_eligible (cfg : Cfg) (p : Proc) (now : Int) (res : SpawnRes) (hw : wfSpawn res)
+    (hst : p.state = .exited ∨ p.state = .stopped ∨ p.state = .backoff ∨ p.state = .fatal) (hp : p.pid = 0) :
+    let r := spawn cfg now res { p := p }
+    r.err = none ∧
+    ((∃ pid, res = .ok pid ∧ r.p.spawnerr = false ∧ r.p.pid = pid ∧ pid ≠ 0 ∧ forks r.outs = [.fork pid]) ∨
+     (r.p.spawnerr = true ∧ forks r.outs = [] ∧ r.p.pid = 0)) := by
+  cases res with
+  | ok pid =>
+    have hpid : pid ≠ 0 := hw
+    rcases hst with hs | hs | hs | hs <;> simp [procdefs, hs, hp, hpid, forks]
+  | badCmd => rcases hst with hs | hs | hs | hs <;> simp [procdefs, hs, hp, forks]
+  | pipeErr => rcases hst with hs | hs | hs | hs <;> simp [procdefs, hs, hp, forks]
+  | forkErr => rcases hst with hs | hs | hs | hs <;> simp [procdefs, hs, hp, forks]
+
+theorem emit_answer_outs (c : Int) (s : S) (he : s.err = none) : (answer c s).outs = s.outs ++ [.answer c] ∧ (answer c s).p = s.p := by
+  obtain ⟨q, os, err⟩ := s
+  simp only at he; subst he
+  simp [answer, emit, guard]
+
+/-- **startProcess answers true only if this call started a child** — exactly one, for this
+    process, which it now holds — and answers SPAWN_ERROR when the attempt could not be spawned
+    (command lookup, pipe creation or fork failed), in which case nothing was forked. -/
+theorem start_true_sound (cfg : Cfg) (p : Proc) (now mood : Int) (res : SpawnRes) (hi : Inv p) (hw : wfSpawn res)
+    (hm : ¬ mood < moodRUNNING) (hb : res ≠ .badCmd)
+    (hst : p.state = .exited ∨ p.state = .stopped ∨ p.state = .fatal) :
+    let r := rpcStart cfg now mood res { p := p }
+    (r.outs.getLast? = some (.answer faultSUCCESS) ∧ ∃ pid, res = .ok pid ∧ forks r.outs = [.fork pid] ∧ pid ≠ 0) ∨
+    (r.outs.getLast? = some (.answer faultSPAWN_ERROR) ∧ forks r.outs = [] ∧ r.p.pid = 0) := by
+  have hst' : p.state = .exited ∨ p.state = .stopped ∨ p.state = .backoff ∨ p.state = .fatal := by
+    rcases hst with hs | hs | hs <;> simp [hs]
+  have hp : p.pid = 0 := by apply hi.dead; rcases hst with hs | hs | hs <;> simp [hs]
+  have href : startRefusal p (res == .badCmd) = none := by
+    rcases hst with hs | hs | hs <;> simp [startRefusal, hs, hb, runningStates]
+  obtain ⟨hok, hsp⟩ := spawn_eligible cfg p now res hw hst' hp
+  simp only [rpcStart, guard, Option.isSome_none, Bool.false_eq_true, if_false, hm, ilt_iff, href]
+  rcases hsp with ⟨pid, hres, hse, hpid, hpid0, hfk⟩ | ⟨hse, hfk, hp0⟩
+  · left
+    simp only [hse, Bool.false_eq_true, if_false]
+    have hinv := spawn_inv cfg now res { p := p } hw hi
+    have htok : (transition cfg now mood res .ok (spawn cfg now res { p := p })).err = none := by
+      generalize hr : spawn cfg now res { p := p } = r at *
+      obtain ⟨q, os, err⟩ := r
+      simp only at hok; subst hok
+      exact transition_ok os cfg q now mood res .ok hinv
+    obtain ⟨ho, hpp⟩ := emit_answer_outs faultSUCCESS _ htok
+    have hnf := transition_noFork_of_pid cfg now mood res .ok (spawn cfg now res { p := p }) (by rw [hpid]; exact hpid0)
+    rw [ho]
+    refine ⟨by simp, pid, hres, ?_, hpid0⟩
+    rw [forks_append, hnf, hfk]
+    simp [forks]
+  · right
+    simp only [hse, if_true]
+    obtain ⟨ho, hpp⟩ := emit_answer_outs faultSPAWN_ERROR _ hok
+    rw [ho, hpp]
+    refine ⟨by simp, ?_, hp0⟩
+    rw [forks_append, hfk]
+    simp [forks]
+
+/-- **stopProcess answers NOT_RUNNING exactly for a process that is not starting, running or
+    backing off**, without signalling anything -/
+theorem stop_not_running_exact (cfg : Cfg) (p : Proc) (now mood : Int) (kr : KillRes) (hm : ¬ mood < moodRUNNING) :
+    (p.state ∉ runningStates →
+      rpcStop cfg now mood kr { p := p } = { p := p, outs := [.answer faultNOT_RUNNING] }) ∧
+    (p.state ∈ runningStates →
+      (rpcStop cfg now mood kr { p := p }).outs.getLast? ≠ some (.answer faultNOT_RUNNING)) := by
+  constructor
+  · intro h
+    simp [rpcStop, guard, answer, emit, hm, h]
+  · intro h
+    have hok := stop_ok [] cfg now kr p (by simp [runningStates] at h; rcases h with h | h | h <;> simp [h])
+    simp only [rpcStop, guard, Option.isSome_none, Bool.false_eq_true, if_false, hm, ilt_iff, h, decide_true, Bool.not_true]
+    obtain ⟨ho, _⟩ := emit_answer_outs (if ((p.state != .backoff && p.pid == 0) || (p.state != .backoff && kr == .fail)) = true
+      then faultFAILED else faultSUCCESS) _ hok
+    rw [ho]
+    simp only [List.getLast?_append, List.getLast?_singleton, Option.some_or]
+    split <;> decide
+
+/-- **stopProcess that answers true has signalled the child or cancelled the retry**: the process is
+    then STOPPING (signal delivered or child already gone) or, from BACKOFF, STOPPED at once -/
+theorem stop_true_sound (cfg : Cfg) (p : Proc) (now mood : Int) (kr : KillRes) (hi : Inv p) (hm : ¬ mood < moodRUNNING)
+    (hs : p.state ∈ runningStates) (hk : kr ≠ .fail) :
+    let r := rpcStop cfg now mood kr { p := p }
+    r.outs.getLast? = some (.answer faultSUCCESS) ∧
+    ((p.state = .backoff ∧ r.p.state = .stopped ∧ kills r.outs = []) ∨
+     (p.state ≠ .backoff ∧ r.p.state = .stopping ∧ r.p.pid = p.pid ∧
+        kills r.outs = [.kill (if cfg.stopasgroup then -p.pid else p.pid) cfg.stopsignal])) := by
+  simp only [moodRUNNING] at hm
+  simp [runningStates] at hs
+  rcases hs with h | h | h
+  · have hp : p.pid ≠ 0 := by apply hi.live; simp [h]
+    cases kr <;> (try simp at hk) <;> cases hg : cfg.stopasgroup <;>
+      simp [procdefs, kills, runningStates, signallableStates, h, hp, hg, hm]
+  · cases kr <;> (try simp at hk) <;>
+      simp [procdefs, kills, runningStates, signallableStates, h, hm]
+  · have hp : p.pid ≠ 0 := by apply hi.live; simp [h]
+    cases kr <;> (try simp at hk) <;> cases hg : cfg.stopasgroup <;>
+      simp [procdefs, kills, runningStates, signallableStates, h, hp, hg, hm]
+
+/-- **signalProcess delivers exactly the named signal to exactly the named process's child and
+    nothing else**: one `kill(pid, sig)` with the positive pid (never the process group), no state
+    change unless delivery failed -/
+theorem signal_exact (cfg : Cfg) (p : Proc) (now mood sig : Int) (kr : KillRes) (hi : Inv p) (hm : ¬ mood < moodRUNNING)
+    (hs : p.state ∈ signallableStates) :
+    let r := rpcSignal cfg now mood sig kr { p := p }
+    kills r.outs = [.kill p.pid sig] ∧ p.pid ≠ 0 ∧ (kr ≠ .fail → r.p = p ∧ r.outs.getLast? = some (.answer faultSUCCESS)) ∧
+    (kr = .fail → r.outs.getLast? = some (.answer faultFAILED)) := by
+  simp only [moodRUNNING] at hm
+  simp [signallableStates] at hs
+  have hp : p.pid ≠ 0 := by apply hi.live; rcases hs with h | h | h <;> simp [h]
+  rcases hs with h | h | h <;> cases kr <;> simp [procdefs, kills, signallableStates, h, hp, hm]
+
+/-- signalProcess on a process that cannot be signalled answers NOT_RUNNING and delivers nothing -/
+theorem signal_not_running (cfg : Cfg) (p : Proc) (now mood sig : Int) (kr : KillRes) (hm : ¬ mood < moodRUNNING)
+    (hs : p.state ∉ signallableStates) :
+    rpcSignal cfg now mood sig kr { p := p } = { p := p, outs := [.answer faultNOT_RUNNING] } := by
+  simp [rpcSignal, guard, answer, emit, hm, hs]
+
+/-- **Deferred start answers** (`wait=true`): the callback the loop polls answers true only when
+    the process is RUNNING (and not marked with a spawn error), SPAWN_ERROR / ABNORMAL_TERMINATION
+    when the attempt has failed, and stays pending exactly while the process is STARTING -/
+theorem deferred_start_sound (p : Proc) :
+    (startWaitAnswer p = some faultSUCCESS ↔ p.spawnerr = false ∧ p.state = .running) ∧
+    (startWaitAnswer p = none ↔ p.spawnerr = false ∧ p.state = .starting) := by
+  cases hs : p.state <;> cases he : p.spawnerr <;>
+    simp [startWaitAnswer, hs, he, faultSUCCESS, faultSPAWN_ERROR, faultABNORMAL_TERMINATION]
+
+/-- **Deferred stop answers** (`wait=true`): the callback answers true only once the process is in
+    a stopped state — where, by the bookkeeping invariant, it holds no child -/
+theorem deferred_stop_sound (p : Proc) (hi : Inv p) (c : Int) (h : stopWaitAnswer p = some c) :
+    c = faultSUCCESS ∧ p.state ∈ stoppedStates ∧ (p.state ≠ .unknown → p.pid = 0) := by
+  simp only [stopWaitAnswer] at h
+  split at h
+  · simp at h
+  · rename_i hst
+    simp at hst h
+    refine ⟨h.symm, hst, ?_⟩
+    intro hu
+    apply hi.dead
+    simp [stoppedStates] at hst
+    rcases hst with h1 | h1 | h1 | h1 <;> simp_all
+
+-- non-vacuity
+example : startWaitAnswer { state := .running } = some faultSUCCESS := by decide
+example : stopWaitAnswer { state := .stopping, pid := 5 } = none := by decide
+
 end Sv.Props.C13
